@@ -388,6 +388,48 @@ fn fam_core(o: &mut Out, quick: bool, rng: &mut Rng) {
             o.run(c2);
         }
     }
+    // a strongly convex event function whose root lies in a long first / last step: the root finder's trial points stay
+    // inside the step (the event functions are never evaluated outside the interval)
+    for m in METHODS {
+        let nc = if quick { 40 } else { 240 };
+        for i in 0..nc {
+            let rate = 3.0 + 5.5 * ((i * 7919) % 101) as f64 / 101.0;
+            let cpos = 0.45 + 0.5 * ((i * 104729) % 97) as f64 / 97.0;
+            for (x0, xend) in [(0.0, 1.0), (1.0, 0.0)] {
+                let lam = if i % 2 == 0 { 0.0 } else { 1.0 };
+                let mut c = base(m, Problem::new("decay", lam), x0, xend);
+                if m == "RK4" { c.first_step = Some(xend - x0); }
+                c.events = vec![EventSpec { kind: format!("expt:{}", rate), a: x0 + (xend - x0) * cpos, dir: "All".into(), term: 0 }];
+                c.tags = vec!["convex_event_long_step".into()];
+                o.run(c);
+            }
+        }
+    }
+    // a first_step longer than the interval carrying the sign of a backward run, and a negative one on a forward run
+    for m in METHODS {
+        for (x0, xend, fs) in [(0.25, 0.0, -1.0), (2.0, 1.0, -4.0), (0.0, 0.25, -1.0)] {
+            let mut c = base(m, Problem::new("lin2", 0.0), x0, xend);
+            c.first_step = Some(fs);
+            c.tags = vec!["first_step>span+negative_sign".into()];
+            o.run(c.clone());
+            c.dense = true;
+            c.t_eval = Some(linspace(x0, xend, 4));
+            c.tags = vec!["first_step>span+negative_sign+t_eval+dense".into()];
+            o.run(c);
+        }
+    }
+    // a flat start (f = 0 at x0 and at the probe point) with a max_step below hinit's fallback step
+    for m in METHODS {
+        for (x0, xend) in [(0.0, 4.0e-6), (4.0e-6, 0.0)] {
+            let mut c = base(m, Problem::new("logistic", 0.0), x0, xend);
+            c.y0 = vec![1.0];
+            c.jac = "user".into();
+            c.max_step = Some(2.5e-7);
+            if m == "RK4" { c.first_step = Some(2.5e-7); }
+            c.tags = vec!["flat_start+max_step_below_1e-6".into()];
+            o.run(c);
+        }
+    }
     // degenerate front-end cases
     for m in METHODS {
         let mut c = base(m, Problem::new("decay", 1.0), 2.0, 2.0); c.dense = true; c.tags = vec!["zero_interval".into()]; o.run(c);
@@ -775,6 +817,19 @@ fn fam_lowlevel(o: &mut Out, quick: bool, rng: &mut Rng) {
                 c.tags = vec!["modify_back".into()];
                 o.run(c);
             }
+            // ModifiedSolution (state unchanged) at every callback from the tenth on of a long, steady run: whichever path
+            // the solver takes after the callback, the derivative is re-evaluated at the state the callback left
+            if *m != "BDF" {
+                let mut c = base(m, Problem::new("lin2", 0.0), *x0, *x0 + (xend - x0) * 2.0);
+                c.api = "low".into();
+                c.rtol = vec![1e-6];
+                c.atol = vec![1e-9];
+                c.jac = "user".into();
+                if *m == "RK4" { c.first_step = Some((xend - x0) / 32.0); }
+                c.script = (10..90).map(|k| Script { k, action: "modify_same".into() }).collect();
+                c.tags = vec!["modify_same_every_callback".into()];
+                o.run(c);
+            }
             // doubling at the initial callback
             for p in [Problem::new("lin2", 0.0), Problem::new("decay", 1.0)] {
                 let mut c = base(m, p, *x0, *xend);
@@ -922,6 +977,26 @@ fn fam_observer_terminal(o: &mut Out) {
     }
 }
 
+/// C12: output options on intervals shorter than the output handler's absolute time tolerance
+fn fam_observer_tinyspan(o: &mut Out) {
+    for m in METHODS {
+        for (x0, xend) in [(0.0, 4.0e-13), (0.0, -4.0e-13), (1.0, 1.0 + 2048.0 * f64::EPSILON), (1.0, 1.0 - 1024.0 * f64::EPSILON)] {
+            let mut c = base(m, Problem::new("lin2", 0.0), x0, xend);
+            c.tags = vec!["plain+tiny_interval".into()];
+            let a = o.run(c.clone());
+            for (tag, te, dense) in [("teval_ends", Some(vec![x0, xend]), false), ("teval_end", Some(vec![xend]), false),
+                                     ("teval_mid+dense", Some(vec![x0, x0 + 0.5 * (xend - x0), xend]), true), ("dense", None, true)] {
+                let mut v = c.clone();
+                v.t_eval = te;
+                v.dense = dense;
+                v.tags = vec![format!("tiny_interval+{}", tag)];
+                let b = o.run(v);
+                o.pair("C12", "observer", &a, &b, "output options on a tiny interval change only what is reported");
+            }
+        }
+    }
+}
+
 /// C12: first_step whose first attempt is rejected (the handler skips outputs up to the pinned one); more than 100 requested times
 fn fam_observer_firststep(o: &mut Out) {
     for m in METHODS {
@@ -1036,7 +1111,9 @@ fn fam_budget(o: &mut Out, quick: bool, rng: &mut Rng) {
         c.tags = vec!["unbudgeted".into()];
         let a = o.run(c.clone());
         let na = a.sol.as_ref().map(|s| s.t.len().saturating_sub(1)).unwrap_or(0);
-        let ks: Vec<usize> = if quick { vec![1, 2, na, na + 1] } else { (1..=(na + 2).min(14)).chain([na, na + 1, na + 2]).collect() };
+        let ns = a.sol.as_ref().map(|s| s.nstep).unwrap_or(0);
+        // (ns = attempts counted by the solver: the budget that is exactly enough, one less, one more)
+        let ks: Vec<usize> = if quick { vec![1, 2, na, na + 1, ns.saturating_sub(1), ns, ns + 1] } else { (1..=(na + 2).min(14)).chain([na, na + 1, na + 2, ns.saturating_sub(1), ns, ns + 1]).collect() };
         let mut seen = std::collections::BTreeSet::new();
         for k in ks {
             if k == 0 || !seen.insert(k) { continue; }
@@ -1968,7 +2045,7 @@ fn main() {
             "core" => fam_core(&mut o, quick, &mut rng),
             "adversarial" => fam_adversarial(&mut o, quick, &mut rng),
             "lowlevel" => fam_lowlevel(&mut o, quick, &mut rng),
-            "observer" => { fam_observer(&mut o, quick, &mut rng); fam_observer_wide(&mut o, quick); fam_observer_firststep(&mut o); fam_observer_long(&mut o, quick); fam_observer_stiff(&mut o); fam_observer_terminal(&mut o); }
+            "observer" => { fam_observer(&mut o, quick, &mut rng); fam_observer_wide(&mut o, quick); fam_observer_firststep(&mut o); fam_observer_long(&mut o, quick); fam_observer_stiff(&mut o); fam_observer_terminal(&mut o); fam_observer_tinyspan(&mut o); }
             "budget" => { fam_budget(&mut o, quick, &mut rng); fam_budget_early_rejections(&mut o, quick); fam_budget_radau(&mut o, quick); fam_budget_singular(&mut o); }
             "terminal" => { fam_terminal(&mut o, quick, &mut rng); fam_terminal_last(&mut o, quick); fam_terminal_sweep(&mut o, quick); fam_terminal_budget(&mut o); fam_terminal_tinysteps(&mut o); }
             "symmetry" => fam_symmetry(&mut o, quick, &mut rng),
